@@ -192,14 +192,23 @@ def run_case(case, ctx):
     nobs = int(rng.integers(1, 5)) if use_system else 1
     picks = [names[j] for j in rng.choice(len(names), size=nobs, replace=False)]
     obs = [make_obs(rng, nv, p) for p in picks]
-    # observables sharing a name conflict inside a System (documented): keep names unique
-    seen_names, keep_o, keep_p = set(), [], []
-    for o, p_ in zip(obs, picks):
-        if o.name not in seen_names:
-            seen_names.add(o.name)
-            keep_o.append(o)
-            keep_p.append(p_)
-    obs, picks = keep_o, keep_p
+    # observables sharing a name conflict inside a System (documented: one entry per name).  Usually names are kept
+    # unique; in part of the System runs two observables share a name on purpose (the same observable listed twice,
+    # SigmaZ beside SigmaZ(absolute=True)): the single entry must then be the result ONE of them gets alone on the same
+    # chain states - which one is not specified - never a mixture
+    share_names = use_system and i % 12 == 3
+    if share_names:
+        picks = [["SigmaZ", "absZ"], ["SigmaX", "SigmaX"], ["absZ", "SigmaZ", "ZZ"], ["occupation", "occupation"]][(i // 12) % 4]
+        obs = [make_obs(rng, nv, p_) for p_ in picks]
+        ctx.count("systems_with_shared_names")
+    else:
+        seen_names, keep_o, keep_p = set(), [], []
+        for o, p_ in zip(obs, picks):
+            if o.name not in seen_names:
+                seen_names.add(o.name)
+                keep_o.append(o)
+                keep_p.append(p_)
+        obs, picks = keep_o, keep_p
     user = i % 4 == 1
     overwrite = bool((i // 4) % 2)
     init = None
@@ -277,6 +286,10 @@ def run_case(case, ctx):
         states.append(r)
         prev = r
     # ---- one-pass oracle on the recorded chain states
+    by_name = {}
+    for ob in obs:
+        by_name.setdefault(ob.name, []).append(ob)
+    pending = {}  # name -> messages of candidates that did not match (shared names: a violation only if NO candidate matches)
     for ob in obs:
         vals = np.concatenate([np.atleast_1d(ob.apply(st, s.clone()).detach().numpy()) for s in states]).astype(float)
         wm, wv, wn = one_pass(vals)
@@ -299,10 +312,19 @@ def run_case(case, ctx):
         wse = math.sqrt(wv / wn) if not math.isnan(wv) else float("nan")
         if not near(got["std_error"], wse, (0.0 if math.isnan(wse) else wse) + 1e-6 * math.sqrt(abs(wm) * sd / max(wn, 1)) + 1e-6 * abs(wm) + 1e-290, 1e-8):
             bad.append(f"std_error={got['std_error']!r} vs {wse!r}")
+        if len(by_name[ob.name]) > 1:
+            pending.setdefault(ob.name, []).append("; ".join(bad) if bad else None)
+            continue
         if bad:
             ctx.violation("statistics-mismatch", f"{'System' if use_system else 'Observable'}.statistics for {ob.name} "
                           f"({chains} chains x {draws} draws): " + "; ".join(bad) + " [streaming vs one pass over all drawn samples]",
                           tags=dict(tags, chains_is_one=chains == 1, total_one=wn == 1), witness=wit)
+    for nm_, msgs in pending.items():
+        ctx.count("shared_name_entries_checked")
+        if all(m is not None for m in msgs):
+            ctx.violation("statistics-mismatch", f"System.statistics entry {nm_!r}, a name shared by {len(msgs)} observables ({chains} chains x "
+                          f"{draws} draws), is the one-pass result of none of them on the drawn samples: " + " | ".join(msgs)[:600],
+                          tags=dict(tags, shared_name=True), witness=wit)
     # ---- user chains
     if user:
         if overwrite:
